@@ -159,7 +159,7 @@ func TestHistories(t *testing.T) {
 		for i := 0; i < nOps; i++ {
 			lbl := fmt.Sprintf("op%d", i)
 			kind := rapid.SampledFrom([]string{"advance", "advance", "advance", "advance", "prune", "prune", "prune", "prune-via-app",
-				"prune-too-high", "prune-skip", "prune-direct-base"}).Draw(t, lbl)
+				"prune-too-high", "prune-skip", "prune-direct-base"}).Draw(t, lbl) // "rollback" (hist.rollback) is implemented but not drawn: the operator command is outside the sequences of saves and prunes C18 quantifies over (see MUTANTS.md, wave 6)
 			base, height := hs.c.BlockStore.Base(), hs.c.BlockStore.Height()
 			if height == 0 || (i == 0) {
 				kind = "advance"
@@ -200,6 +200,9 @@ func TestHistories(t *testing.T) {
 			case "prune-direct-base":
 				hs.pruneDirectBase()
 				hs.liveAudit("after PruneBlocks(base)")
+			case "rollback":
+				hs.rollback()
+				hs.liveAudit("after rollback and restart")
 			}
 		}
 		span := hs.c.Tip() - initial + 1
